@@ -764,6 +764,11 @@ func CheckModuli(q, p []uint64) error {
 		}
 	}
 
+	// Q and P are the RNS basis of the key-switching ring: a shared prime makes QP a non-basis
+	if !utils.AllDistinct(append(append([]uint64{}, q...), p...)) {
+		return fmt.Errorf("the moduli of Q and P are not pairwise distinct")
+	}
+
 	return nil
 }
 
